@@ -36,7 +36,8 @@ def gen_plan(rng, tier, i, seed):
         a = rng.randint(c0, c0 + (c1 - c0) // 3)
         b = rng.randint(c1 - (c1 - c0) // 3, c1)
         world["neutral"] = [a, b]
-    smp = {"name": "s0", "genes": {g["name"]: WL._gen_units(rng, g)}, "phase_seed": rng.randint(0, 999)}
+    smp = {"name": "s0", "genes": {g["name"]: WL._gen_units(rng, g)}, "phase_seed": rng.randint(0, 999),
+           "softclip": rng.choice([0, 0.1, 0.3])}
     return {"world": world, "samples": {"s0": smp}, "build": rng.choice(["hg19", "hg19", "hg38"]),
             "k": rng.choice([2, 3, 4, 5]), "route": rng.choice(["bam", "yml"]),
             "write_hashseed": rng.choice([0, 1, 2]), "read_hashseed": rng.choice([0, 1, 2, 3, 4]),
@@ -61,7 +62,7 @@ def judge(plan, outcome):
     m = outcome["measure"]
     env = {"route": plan["route"], "k": plan["k"], "build": plan["build"]}
     # (1) the profile sample fed back to itself reads 2.0 wherever the profile has depth
-    for route in ("bam", "yml"):
+    for route in ("bam", "yml", "own"):
         r = m["self"][route]
         if r.get("exc"):
             vs.append(_v("profile sample could not be normalised against its own profile", exc=r["exc"],
@@ -236,6 +237,8 @@ def _measure(gene, prof_path, cnr, sam_path, stream=None, structure=False):
                 out["structure"] = ["<error>"]
     except AldyException as ex:
         out["exc"] = O.exc_info(ex)
+    except (ZeroDivisionError, KeyError, ValueError, OSError) as ex:
+        out["exc"] = O.exc_info(ex)  # not an AldyException: judged as 'not rejected properly'
     finally:
         SIM.cfg.pop("stream", None)
     return out
@@ -245,7 +248,8 @@ def run_segment(seg):
     from .. import streams
 
     if seg["kind"] == "materialise":
-        man = O.materialise(seg["world"], seg["dir"], seg["samples"], build=seg["build"], profile_yaml=True)
+        man = O.materialise(seg["world"], seg["dir"], seg["samples"], build=seg["build"], profile_yaml=True,
+                            extra={"ref_softclip": 0.2})
         return man
     streams.install_stream_seam()
     from aldy.gene import Gene
@@ -267,6 +271,11 @@ def run_segment(seg):
     res = {"self": {}}
     res["self"]["bam"] = _measure(gene, refbam, man["neutral"], selfbam)
     res["self"]["yml"] = _measure(gene, yml, None, selfbam)
+    # any sample is, by definition, two copies against the profile generated from itself
+    selfs0 = os.path.join(rd, "selfs0.bam")
+    shutil.copy(s0, selfs0)
+    shutil.copy(s0 + ".bai", selfs0 + ".bai")
+    res["self"]["own"] = _measure(gene, s0, man["neutral"], selfs0)
     prof, cnr = (refbam, man["neutral"]) if plan["route"] == "bam" else (yml, None)
     res["base"] = _measure(gene, prof, cnr, s0, structure=True)
     k = plan["k"]
